@@ -37,6 +37,12 @@ def member_guarded(p: POp, rec: sym.Record) -> Optional[str]:
         for call_keys in (T("call", (T("attr", (table, "keys")), (), ())),):
             if render.assume_lookup(a, T("cmp", ("in", p.key, call_keys))) is True:
                 return "membership tested on the path"
+        # `table.get(key)` was found not to be None on the path: the key is there
+        for got in (T("call", (T("attr", (table, "get")), (p.key,), ())),
+                    T("call", (T("attr", (table, "get")), (p.key, T("const", (None,))), ()))):
+            if render.assume_lookup(a, T("cmp", ("is", got, T("const", (None,))))) is False or \
+                    render.assume_lookup(a, T("cmp", ("is not", got, T("const", (None,))))) is True:
+                return "table.get(key) is not None on the path"
     # a dominating store / setdefault of the same key into the same table
     for e in rec.effects:
         if e.seq < p.seq and e.kind in ("mut-call", "sub-store") and (e.path in (p.base, p.path) or e.base in (p.base, p.path)):
